@@ -43,6 +43,8 @@ V['C01'] = [
     ('tables as tuples', FD, 'step = [1, 2, 2, 4, 4, 4, 4][parity]', 'step = (1, 2, 2, 4, 4, 4, 4)[parity]', 'S', None),
     ('i_h inlined', FD, '        i_h = h * _SQRT_J\n        return (f(x + i_h) + f(x - i_h)).imag', '        return (f(x + h * _SQRT_J) + f(x - h * _SQRT_J)).imag', 'S', None),
     ('flip list as a set', FD, '(self.n % 8 in [3, 4, 5, 6])', '(self.n % 8 in {3, 4, 5, 6})', 'S', None),
+    ('_vstack ravels in memory order', FD, "        f_del = np.vstack([np.ravel(r) for r in sequence])\n        one = np.ones(original_shape)\n        h = np.vstack([np.ravel(one * step) for step in steps])\n        _assert(f_del.size == h.size, 'fun did not return data of correct '\n                'size (it must be vectorized)')\n        return f_del, h, original_shape\n\n    def _apply", "        f_del = np.vstack([np.ravel(r, order='K') for r in sequence])\n        one = np.ones(original_shape)\n        h = np.vstack([np.ravel(one * step, order='K') for step in steps])\n        _assert(f_del.size == h.size, 'fun did not return data of correct '\n                'size (it must be vectorized)')\n        return f_del, h, original_shape\n\n    def _apply", 'F', 'R-ARRAY'),
+    ('convolve drops kwds for the imaginary part', EXT, "return convolve1d(seq.real, rule, **kwds) + 1j * convolve1d(seq.imag, rule, **kwds)", "return convolve1d(seq.real, rule, **kwds) + 1j * convolve1d(seq.imag, rule)", 'F', 'R-E2E'),
 ]
 V['C06'] = [v for v in V['C01'] if v[0] in ('offset[6] 3->1', 'c_0[4] 24->12', 'flip list loses n%8==6', 'complex_odd_higher .real->.imag',
                                              'rule_index off by one', '_fd_matrix exponent', 'central written as 0.5*', 'tables as tuples',
@@ -50,6 +52,7 @@ V['C06'] = [v for v in V['C01'] if v[0] in ('offset[6] 3->1', 'c_0[4] 24->12', '
     ('richardson_step complex always 2', FD, 'complex_step = 4 if self._complex_high_order else 2', 'complex_step = 2', 'F', None),
     ('cache key without parity', FD, 'fd_rules = FD_RULES.get((step_ratio, parity, num_terms))\n        if fd_rules is None:\n            fd_mat = self._fd_matrix(step_ratio, parity, num_terms)\n            fd_rules = linalg.pinv(fd_mat)\n            FD_RULES[(step_ratio, parity, num_terms)] = fd_rules',
      'fd_rules = FD_RULES.get((step_ratio, num_terms))\n        if fd_rules is None:\n            fd_mat = self._fd_matrix(step_ratio, parity, num_terms)\n            fd_rules = linalg.pinv(fd_mat)\n            FD_RULES[(step_ratio, num_terms)] = fd_rules', 'F', 'R-CACHE'),
+    ('complex high order flag frozen at construction', FD, "    @property\n    def _complex_high_order(self):\n        return self.method == 'complex' and (self.n > 1 or self.order >= 4)", "    @property\n    def _complex_high_order(self):\n        if not hasattr(self, '_cho'):\n            self._cho = self.method == 'complex' and (self.n > 1 or self.order >= 4)\n        return self._cho", 'F', 'R-SETTER'),
 ]
 V['C02'] = [
     ('_eval_first drops full_output', CORE, 'if self.fd_rule.eval_first_condition or self.full_output:', 'if self.fd_rule.eval_first_condition:', 'F', 'R-FVALUE'),
@@ -58,6 +61,8 @@ V['C02'] = [
     ('info fields swapped', LIM, 'return der.flat[idx].reshape(shape), _Limit.info(err, final_step, idx)', 'return der.flat[idx].reshape(shape), _Limit.info(final_step, err, idx)', 'F', 'R-INFO'),
     ('dea3 abserr sign', EXT, 'abserr = err1 + err2 + np.where(converged, tol2 * 10, np.abs(result - e_2))', 'abserr = err1 + err2 - np.where(converged, tol2 * 10, np.abs(result - e_2))', 'F', 'R-NONNEG'),
     ('gathers reordered', LIM, '        final_step = steps.flat[idx].reshape(shape)\n        err = errors.flat[idx].reshape(shape)', '        err = errors.flat[idx].reshape(shape)\n        final_step = steps.flat[idx].reshape(shape)', 'S', None),
+    ('single estimate error proportional to the value', EXT, 'return (np.abs(new_sequence) * EPS + steps) * fact', 'return np.abs(new_sequence) * (EPS + steps) * fact', 'F', 'R-FLOOR'),
+    ('single estimate error: terms commuted', EXT, 'return (np.abs(new_sequence) * EPS + steps) * fact', 'return (steps + EPS * np.abs(new_sequence)) * fact', 'S', None),
 ]
 V['C03'] = [
     ('increments uses h[0]', FD, '            e_i[k] = h[k]\n            yield e_i', '            e_i[k] = h[0]\n            yield e_i', 'F', None),
@@ -78,6 +83,7 @@ V['C04'] = [
     ('Hessdiag central2 coefficient', FD, '+ 2 * f_x - 2 * f(x + hi) - 2 * f(x - hi)) / 4.0', '+ 2 * f_x - 2 * f(x + hi) - 2 * f(x - hi)) / 2.0', 'F', None),
     ('revert fix 6259e14 (length-1 value)', CORE, '            if np.ndim(f_x) == 1 and np.size(f_x) == 1:\n                return f_x[0]\n', '', 'F', 'R-HESS-SHAPE'),
     ('eee[i, :] -> eee[i]', FD, 'hess[i, j] = (f(x + eee[i, :] + eee[j, :]) - g[i] - g[j] + f_x) / hess[j, i]', 'hess[i, j] = (f(x + eee[i] + eee[j]) - g[i] - g[j] + f_x) / hess[j, i]', 'S', None),
+    ('forward buffer takes the dtype of f(x)', FD, "        g = np.empty(n, dtype=dtype)\n        for i in range(n):\n            g[i] = f(x + eee[i, :])\n\n        hess = np.empty((n, n), dtype=dtype)\n        np.outer(h, h, out=hess)\n        for i in range(n):\n            for j in range(i, n):\n                hess[i, j] = (f(x + eee[i, :] + eee[j, :]) - g[i] - g[j] + f_x)", "        g = np.full(n, f_x)\n        for i in range(n):\n            g[i] = f(x + eee[i, :])\n\n        hess = np.empty((n, n), dtype=dtype)\n        np.outer(h, h, out=hess)\n        for i in range(n):\n            for j in range(i, n):\n                hess[i, j] = (f(x + eee[i, :] + eee[j, :]) - g[i] - g[j] + f_x)", 'F', 'R-INTDTYPE'),
 ]
 V['C05'] = [
     ('Hessian backward passes +h', FD, 'return HessianDifferenceFunctions._forward(f, f_x, x, -h)', 'return HessianDifferenceFunctions._forward(f, f_x, x, h)', 'F', 'R-ADMISSIBLE'),
@@ -105,6 +111,7 @@ V['C08'] = [
      "        original_shape = np.shape(sequence[0])\n        f_del = np.vstack([np.ravel(r) for r in sequence])\n        one = np.ones(original_shape)\n        h = np.vstack([np.ravel(one * step) for step in steps])\n        _assert(f_del.size == h.size, 'fun did not return data of correct '\n                'size (it must be vectorized)')\n        return f_del, h, np.shape(np.ravel(sequence[0]))\n\n    def apply", 'F', 'R-SHAPE'),
     ('revert fix ae04deb (all-NaN column)', LIM, "        all_nan = np.all(np.isnan(errors), axis=0)\n        if np.any(all_nan):\n            # an element without any valid estimate must not affect the other elements\n            warnings.warn('All-NaN slice encountered')\n            errors = np.where(all_nan, 0.0, errors)\n", '        all_nan = np.zeros(shape[1], dtype=bool)\n', 'S', None),
     ('np.abs -> abs', LIM, '        a_median = np.abs(median)', '        a_median = abs(median)', 'S', None),
+    ('steps with NaN dropped for the whole array', CORE, "        results = [diff(f, fxi, x_i, h) for h in steps]\n", "        results = [diff(f, fxi, x_i, h) for h in steps]\n        if bool(np.isnan(results[0]).any()) and len(results) > self.n + self.order + 2:\n            results, steps = results[1:], steps[1:]\n", 'F', 'R-COLSEP'),
 ]
 V['C09'] = [
     ('n setter forgets _set_derivative', CORE, '        self.fd_rule.n = value\n        self._set_derivative()', '        self.fd_rule.n = value', 'F', 'R-HISTORY'),
@@ -146,6 +153,10 @@ V['C12'] = [
     ('imag12 alias', MC, '    def imag12(self):\n        return self.z2.imag', '    def imag12(self):\n        return self.z2.real', 'F', 'R-ALIASES'),
     ('factors commuted', MC, '        z1 = np.cosh(self.z2) * np.sin(self.z1)', '        z1 = np.sin(self.z1) * np.cosh(self.z2)', 'S', None),
     ('tan via power', MC, '        return self.sin() / self.cos()', '        return self.sin() * self.cos() ** -1', 'S', None),
+    ('revert fix c501130 (arg_c at Re z1 = 0)', MC, '* np.pi * (z1.real < 0)', '* np.pi * (z1.real <= 0)', 'F', 'R-BRANCH'),
+    ('arg_c sign via np.sign', MC, 'sign = np.where((z1.real == 0) * (z2.real == 0), 0, np.where(0 <= z2.real, 1, -1))', 'sign = np.sign(z2.real)', 'F', 'R-BRANCH'),
+    ('arg_c lower half plane at the axis', MC, 'np.where(0 <= z2.real, 1, -1))', 'np.where(0 < z2.real, 1, -1))', 'S', None),
+    ('mod_c memoised', MC, "        r11, r22 = self.z1 * self.z1, self.z2 * self.z2\n        r = np.sqrt(r11 + r22)\n        return r", "        if getattr(self, '_r', None) is None:\n            r11, r22 = self.z1 * self.z1, self.z2 * self.z2\n            self._r = np.sqrt(r11 + r22)\n        return self._r", 'F', None),
 ]
 V['C13'] = [
     ('Shanks sign', EXT, 'sss = 1.0 / delta2 - 1.0 / delta1 + _TINY', 'sss = 1.0 / delta2 + 1.0 / delta1 + _TINY', 'F', 'R-SHANKS'),
@@ -169,18 +180,24 @@ V['C15'] = [
     ('inner loop short', FB, '        for v in range(i):\n            c_3 = x[i] - x[v]', '        for v in range(max(i - 1, 1)):\n            c_3 = x[i] - x[v]', 'F', 'R-LAGRANGE'),
     ('fd_weights takes row 0', FB, '    return fd_weights_all(x, x0, n)[-1]', '    return fd_weights_all(x, x0, n)[0]', 'F', 'R-ROW'),
     ('c_1 .. renamed', FB, '        c_1 = c_2\n', '        c_1 = c_2 * 1\n', 'S', None),
+    ('fd_weights memoised by offsets', FB, '    return fd_weights_all(x, x0, n)[-1]', "    key = (n,) + tuple(np.subtract(x, x0).tolist())\n    if key not in _MEMO:\n        _MEMO[key] = fd_weights_all(x, x0, n)[-1]\n    return _MEMO[key].copy()\n\n\n_MEMO = {}", 'F', 'R-MEMO'),
+    ('fd_weights tolerant table fast path', FB, '    return fd_weights_all(x, x0, n)[-1]', "    tab = CENTRAL_WEIGHTS_AND_POINTS.get((n, len(x)))\n    if tab is not None:\n        step = (x[-1] - x[0]) / (len(x) - 1)\n        if np.allclose(x, x0 + step * tab[1]):\n            return tab[0] / step ** n\n    return fd_weights_all(x, x0, n)[-1]", 'F', 'R-ROW'),
 ]
 V['C16'] = [
     ('interior window one short', FB, 'fx[i - mm:i + mm + 1])', 'fx[i - mm:i + mm])', 'F', None),
     ('right boundary expansion point', FB, 'du[-i - 1] = np.dot(fd_weights(x[-size:], x0=x[-i - 1], n=n), fx[-size:])', 'du[-i - 1] = np.dot(fd_weights(x[-size:], x0=x[-i], n=n), fx[-size:])', 'F', 'R-WINDOW'),
     ('interior range short', FB, '    for i in range(mm, num_x - mm):', '    for i in range(mm, num_x - mm - 1):', 'F', 'R-COVER'),
     ('derivative order dropped', FB, 'du[i] = np.dot(fd_weights(x[:size], x0=x[i], n=n), fx[:size])', 'du[i] = np.dot(fd_weights(x[:size], x0=x[i]), fx[:size])', 'F', 'R-WINDOW'),
+    ('interior weights reused when spacing is close', FB, "    for i in range(mm, num_x - mm):\n        du[i] = np.dot(fd_weights(x[i - mm:i + mm + 1], x0=x[i], n=n),\n                       fx[i - mm:i + mm + 1])", "    step = np.diff(x)\n    weights = step0 = None\n    for i in range(mm, num_x - mm):\n        step_i = step[i - mm:i + mm]\n        if weights is None or not np.allclose(step_i, step0):\n            weights = fd_weights(x[i - mm:i + mm + 1], x0=x[i], n=n)\n            step0 = step_i\n        du[i] = np.dot(weights, fx[i - mm:i + mm + 1])", 'F', None),
 ]
 V['C17'] = [
     ('reset of _num_changes removed', FB, '        self._num_changes = 0\n        return m, self._mvec', '        return m, self._mvec', 'F', None),
     ('failed from the loop index', FB, '            failed = not converged', '            failed = i > self.max_iter', 'F', 'R-FAILED'),
     ('error estimate not scaled', FB, 'info = _INFO(info_.error_estimate * fact, *info_[1:])', 'info = _INFO(info_.error_estimate, *info_[1:])', 'F', 'R-FACTORIAL'),
     ('revert fix d717abd (complex percentile)', LIM, "        if np.iscomplexobj(der):\n            # percentiles are not defined for complex data: treat real and imaginary parts separately\n            return (_Limit._add_error_to_outliers(der.real, trim_fact)\n                    + _Limit._add_error_to_outliers(der.imag, trim_fact))\n", '', 'F', 'R-KIND'),
+    ('_previous_direction reset only once', FB, '        self._previous_direction = None\n        self._degenerate = self._failed = False', "        if not hasattr(self, '_m'):\n            self._previous_direction = None\n        self._degenerate = self._failed = False", 'F', 'R-RESET'),
+    ('coefficients through real_if_close', FB, "        coefs, errors = _get_best_taylor_coefficients(bs, rs, m, lambda: self._get_max_m1m2(bn, m))\n", "        coefs, errors = _get_best_taylor_coefficients(bs, rs, m, lambda: self._get_max_m1m2(bn, m))\n        coefs = np.real_if_close(coefs)\n", 'F', 'R-KIND'),
+    ('k! by int64 cumprod', FB, 'fact = factorial(np.arange(m))', 'fact = np.cumprod(np.maximum(np.arange(m), 1))', 'F', 'R-FACTORIAL'),
 ]
 V['C18'] = [
     ('np.put replaced by assignment', LIM, '            np.put(f_z, k, lim_fz)\n            if self.full_output:', '            f_z = lim_fz\n            if self.full_output:', 'F', 'R-NANMASK'),
@@ -189,6 +206,7 @@ V['C18'] = [
     ('residue default order', LIM, '            order = pole_order + 2', '            order = pole_order + 1', 'F', 'R-RESIDUE'),
     ('revert fix d717abd (complex percentile)', LIM, V['C17'][3][2], '', 'F', 'R-KIND'),
     ('args not forwarded', LIM, '    def _fun(self, z, d_z, args, kwds):\n        return self.fun(z + d_z, *args, **kwds)\n\n    def _get_steps', '    def _fun(self, z, d_z, args, kwds):\n        return self.fun(z + d_z, *args)\n\n    def _get_steps', 'F', 'R-SIGN'),
+    ('limits written through ravel()', LIM, '            np.put(f_z, k, lim_fz)\n            if self.full_output:', '            f_z.ravel()[k] = lim_fz\n            if self.full_output:', 'F', 'R-NANMASK'),
 ]
 V['C19'] = [
     ("central mapped to 2-point", SP, "central='3-point'", "central='2-point'", 'F', 'R-METHODMAP'),
@@ -196,6 +214,7 @@ V['C19'] = [
     ('kwargs dropped', SP, 'kwargs=kwds, bounds=self.bounds', 'kwargs=None, bounds=self.bounds', 'F', 'R-KWARGS'),
     ('step as abs_step', SP, 'rel_step=self.step', 'abs_step=self.step', 'F', 'R-KWARGS'),
     ('gradient squeeze dropped', SP, '*args, **kwds).squeeze()', '*args, **kwds)', 'F', 'R-GRAD'),
+    ('f0 cached by x only', SP, "kwargs=kwds, bounds=self.bounds, sparsity=self.sparsity)\n", "kwargs=kwds, bounds=self.bounds, sparsity=self.sparsity)\n        if getattr(self, '_x0', None) is None or not np.array_equal(x, self._x0):\n            self._x0, self._f0 = np.array(x, dtype=float), np.atleast_1d(self.fun(x, *args, **kwds))\n        options['f0'] = self._f0\n", 'F', 'R-REUSE'),
 ]
 
 
